@@ -4,7 +4,7 @@
 cd "$(dirname "$0")/.."
 QS="${1:-2 3 4 5}"; TS="${2:-1 2}"; P="${3:-3}"
 mkdir -p sweep
-IDS="C01 C02 C03 C04 C05 C06 C07 C08 C09 C10 C11 C12 C13 C14 C15 C16 C17 C18 C19 C20"
+IDS="${IDS:-C01 C02 C03 C04 C05 C06 C07 C08 C09 C10 C11 C12 C13 C14 C15 C16 C17 C18 C19 C20}"
 # builds first, sequentially (cheap when up to date)
 for id in $IDS; do ./check $id --seed 1 > sweep/$id-quick-1.log 2>&1; echo "$id quick 1 exit=$? $(grep -c '^VIOLATION' sweep/$id-quick-1.log) $(tail -1 sweep/$id-quick-1.log | cut -c1-160)"; done
 for s in $QS; do for id in $IDS; do echo "$id quick $s"; done; done > sweep/jobs
